@@ -124,7 +124,7 @@ impl ZonedDateTime {
             .lock()
             .map_err(|_| TemporalError::general("Unable to acquire lock"))?;
 
-        self.millisecond_with_provider(&*provider)
+        self.nanosecond_with_provider(&*provider)
     }
 
     /// Returns the current offset as a formatted offset string.
